@@ -723,6 +723,7 @@ theorem step_noRef (cfg : Cfg) (n : Node) (op : Op) (h : NoRef n) (hop : op ≠ 
           (fun s => by split <;> exact ⟨rfl, rfl⟩) h
         exact noRef_fields rfl rfl rfl h2
       · exact h
+    | nop => exact h
     | coldreset => exact noRef_fresh _ _
     | fabrecover i => exact noRef_fresh _ _
     | resume rid newRid =>
